@@ -37,11 +37,11 @@ default is `None` (and then the class does not combine the `== 0` drop rule with
 or `0` in an int class, or `False` in a bool class -/
 def SpecSane (c : ClassSpec) : Bool :=
   c.fields.all fun f =>
-    (f.dflt == .null && (c.drop != .noneOrZero || c.guard == .str || c.guard == .strOrList)) ||
+    (f.dflt == .null && (c.drop != .noneOrZero || c.guard == .str || c.guard == .strOrList || c.guard == .strOrStrList)) ||
     (f.dflt == .int 0 && c.guard == .natOrNone) || (f.dflt == .bool false && c.guard == .bool)
 
 theorem noLoss_field (g : Guard) (r : DropRule) (d v : JVal)
-    (hs : (d = .null ∧ (r ≠ .noneOrZero ∨ g = .str ∨ g = .strOrList)) ∨ (d = .int 0 ∧ g = .natOrNone) ∨ (d = .bool false ∧ g = .bool))
+    (hs : (d = .null ∧ (r ≠ .noneOrZero ∨ g = .str ∨ g = .strOrList ∨ g = .strOrStrList)) ∨ (d = .int 0 ∧ g = .natOrNone) ∨ (d = .bool false ∧ g = .bool))
     (hv : inDomain g v = true) (hd : dropped r d v = true) : v = d := by
   rcases hs with ⟨rfl, h⟩ | ⟨rfl, rfl⟩ | ⟨rfl, rfl⟩
   · cases r <;> cases g <;> cases v <;> simp_all [inDomain, dropped, isNull, pyEqZero, pyEqDflt]
